@@ -288,10 +288,12 @@ TECH_ADD11 = {
  "C03": "a count multiplied by an integer quotient returned by a library function is a scaled quotient",
  "C04": "the table a Format line is written into is made empty (no filled map reaches it, flag-correlated paths excepted)",
  "C15": "the reference times are followed into the helpers they are passed to",
- "C05": "ReadFromSTL does not assign the GSI offset it subtracts",
+ "C05": "ReadFromSTL does not assign the GSI offset it subtracts; stlStyler.update stores only non-nil attributes",
  "C06": "M/29 is recorded whether or not a page is being received",
  "C14": "no package-level slice or map stored into the model",
  "C20": "no package-level slice or map stored into the model",
+ "C01": "run text is never the Data of an html.Token",
+ "C02": "a pending cue identifier is forgotten once a cue has taken it",
 }
 TEXT_ADD11 = {
  "C03": " Frame counts are not multiplied by a frame length already rounded to whole nanoseconds.",
